@@ -48,7 +48,7 @@ def pkind(ty):
     raise ExtractError("unknown type kind %s" % tag)
 
 
-def walk(stmts, path, names, sigs):
+def walk(stmts, path, names, sigs, pnames):
     for s in stmts:
         if not isinstance(s, dict):
             raise ExtractError("statement %r" % (s,))
@@ -66,13 +66,14 @@ def walk(stmts, path, names, sigs):
                 named = [p["name"].split(".")[-1] for p in f["named_params"]]
                 names.append((path + [name], "NFunc"))
                 sigs.append((path + [name], params, named))
+                pnames[tuple(path + [name])] = [p["name"].split(".")[-1] for p in f["params"]]
             else:
                 names.append((path + [name], "NValue"))
         elif k == "TypeDef":
             names.append((path + [v["name"]], "NType"))
         elif k == "ModuleDef":
             names.append((path + [v["name"]], "NModule"))
-            walk(v["stmts"], path + [v["name"]], names, sigs)
+            walk(v["stmts"], path + [v["name"]], names, sigs, pnames)
         elif k in ("ImportDef", "QueryDef"):
             continue
         else:
@@ -83,8 +84,8 @@ def extract():
     a = harness1("parsefile", {"path": STD})
     if "ok" not in a:
         raise ExtractError("std.prql does not parse: %r" % (str(a)[:300],))
-    names, sigs = [], []
-    walk(a["ok"]["stmts"], [], names, sigs)
+    names, sigs, pnames = [], [], {}
+    walk(a["ok"]["stmts"], [], names, sigs, pnames)
     if len(sigs) < 40:
         raise ExtractError("only %d std functions found" % len(sigs))
     # Module.names is a HashMap: a later declaration of the same name replaces the earlier one
@@ -97,7 +98,9 @@ def extract():
     for path, ps, named in sigs:
         lasts[tuple(path)] = (ps, named)
     sigs = [(list(p), v[0], v[1]) for p, v in lasts.items() if last.get(p) == "NFunc"]
-    return {"names": names, "sigs": sigs}
+    # positional parameter names are not part of the Coq table (they can never be named arguments); the check uses them
+    # to spell unknown named arguments that look plausible
+    return {"names": names, "sigs": sigs, "param_names": pnames}
 
 
 def generate():
